@@ -10,6 +10,7 @@ import (
 	"os"
 	"runtime"
 	"sort"
+	"strings"
 	"strconv"
 	"sync"
 	"sync/atomic"
@@ -570,6 +571,19 @@ func Run(t *testing.T, s *Sim, watchdog time.Duration, body func()) Result {
 		}()
 	}
 	defer close(done)
+	defer func() {
+		// goroutines that are blocked for good when the body returns (a deadlock the
+		// harness has already recorded via s.Deadlock) make synctest panic at the end
+		// of the bubble; they stay parked in the dead bubble
+		if p := recover(); p != nil {
+			if msg := fmt.Sprint(p); strings.Contains(msg, "blocked goroutines remain") {
+				s.Count("leaked-blocked-goroutines")
+				cur.Store(nil)
+				return
+			}
+			panic(p)
+		}
+	}()
 	synctest.Test(t, func(t *testing.T) {
 		s.wake = make(chan struct{}, 1)
 		s.start = time.Now()
